@@ -386,4 +386,73 @@ theorem src_shuffle_never_splits_a_block (labels : List Nat) (n b : Nat) (cands 
     rwa [pointsOfBlocks_nil] at this
   | some c => exact block_never_split labels _ i j hi hj hsame
 
+theorem cumsum_pairwise (xs : List Nat) : (cumsum xs).Pairwise (· ≤ ·) := by
+  induction xs with
+  | nil => simp [cumsum]
+  | cons x xs ih =>
+    simp only [cumsum, List.pairwise_cons, List.mem_map]
+    refine ⟨?_, ?_⟩
+    · rintro y ⟨z, _, rfl⟩; omega
+    · exact (List.pairwise_map).mpr (ih.imp (by intro a b h; omega))
+
+theorem splitRanges_lt (n : Nat) (points : List Nat) : ∀ f ∈ splitRanges n points, ∀ j ∈ f, j < n := by
+  intro f hf j hj
+  unfold splitRanges at hf
+  obtain ⟨q, _, rfl⟩ := List.mem_map.mp hf
+  have := (List.mem_filter.mp hj).1
+  exact List.mem_range.mp this
+
+theorem zero_cons_pairwise (l : List Nat) (h : l.Pairwise (· ≤ ·)) : ((0 : Nat) :: l).Pairwise (· ≤ ·) :=
+  List.pairwise_cons.mpr ⟨fun _ _ => Nat.zero_le _, h⟩
+
+/-- **Every sample is tested exactly once — about the source as it is now (BlockKFold):** whatever the labels, the number of splits and the
+    balancing option (balanced split points from the regenerated `partition_by_sum`, or the equal-count fall-back), with the blocks in
+    `np.unique` order or shuffled into any order that is a rearrangement of them, every sample index lies in EXACTLY ONE of the test sets the
+    regenerated `_iter_test_indices` yields. -/
+theorem src_kfold_every_sample_tested_once (labels : List Nat) (n : Nat) (bal : Bool) (order : Option (List Nat)) (w : Bool) (tests : List (List Nat))
+    (horder : ∀ o, order = some o → o.Perm (groupKeys (labelBound labels) labels))
+    (h : Gen.blockKFoldTests labels n bal order = .ok (w, tests)) (i : Nat) (hi : i < labels.length) :
+    tests.countP (fun t => t.contains i) = 1 := by
+  unfold Gen.blockKFoldTests at h
+  simp only [bind, Except.bind, pure, Except.pure] at h
+  split at h
+  · cases h
+  · simp only [Except.ok.injEq, Prod.mk.injEq] at h
+    obtain ⟨_, rfl⟩ := h
+    -- the block ids in use: a rearrangement of np.unique(labels)
+    have hperm : (order.getD (groupKeys (labelBound labels) labels)).Perm (groupKeys (labelBound labels) labels) := by
+      cases order with
+      | none => exact List.Perm.refl _
+      | some o => exact horder o rfl
+    have hnd : (order.getD (groupKeys (labelBound labels) labels)).Nodup := (List.Perm.nodup_iff hperm).mpr (groupKeys_nodup _ _)
+    have hall : ∀ l ∈ labels, l ∈ order.getD (groupKeys (labelBound labels) labels) := by
+      intro l hl
+      exact hperm.symm.subset ((groupKeys_mem _ _ l).mpr ⟨labelBound_gt labels l hl, hl⟩)
+    have hlen : (order.getD (groupKeys (labelBound labels) labels)).length = (groupKeys (labelBound labels) labels).length := hperm.length_eq
+    -- the folds of block positions partition the positions
+    have hfolds : ∀ folds : List (List Nat),
+        (∃ points : List Nat, points.Pairwise (· ≤ ·) ∧ folds = splitRanges (groupKeys (labelBound labels) labels).length points) →
+        (folds.map fun f => pointsOfBlocks labels (f.map fun j => (order.getD (groupKeys (labelBound labels) labels)).getD j 0)).countP (fun t => t.contains i) = 1 := by
+      rintro folds ⟨points, hs, rfl⟩
+      apply samples_covered_once labels _ _ hnd hall
+      · intro f hf j hj; rw [hlen]; exact splitRanges_lt _ _ f hf j hj
+      · intro j hj; rw [hlen] at hj
+        exact (fold_ranges_partition _ points (zero_cons_pairwise _ hs) j hj).2
+      · exact hi
+    have hk : ∃ points : List Nat, points.Pairwise (· ≤ ·) ∧
+        kfoldRanges (order.getD (groupKeys (labelBound labels) labels)).length n = splitRanges (groupKeys (labelBound labels) labels).length points := by
+      rw [hlen]
+      exact ⟨_, (cumsum_pairwise _).sublist (List.dropLast_sublist _), rfl⟩
+    apply hfolds
+    cases bal with
+    | false => simpa using hk
+    | true =>
+      simp only [if_true]
+      cases hp : Gen.partitionBySum (List.map (fun i => (List.filter (fun x => x == i) labels).length) (order.getD (groupKeys (labelBound labels) labels))) n with
+      | error e => simpa using hk
+      | ok sp =>
+        simp only []
+        rw [hlen]
+        exact ⟨sp, (src_partition_by_sum_spec _ _ _ hp).2.2.1, rfl⟩
+
 end Verde.C11
